@@ -127,7 +127,10 @@ class BufGen:
         if k == "sync":
             return {"k": "sync"}
         if k == "op":
-            return {"k": "op", "tag": self.tag, "args": [r.choice(ivs + ["%n0", "%c1"]) for _ in range(r.randint(0, 2))]}
+            st = {"k": "op", "tag": self.tag, "args": [r.choice(ivs + ["%n0", "%c1"]) for _ in range(r.randint(0, 2))]}
+            if p.get("op_reads") and r.random() < p["op_reads"]:
+                st["reads"] = [r.choice(self.bufs()[N_ARGS:])]  # an op every core executes and that looks into a local buffer
+            return st
         if k == "dealloc":
             return {"k": "dealloc", "buf": r.choice(self.bufs()[N_ARGS:])}
         if k == "for":
@@ -167,7 +170,7 @@ class BufGen:
 
 def buffers_of(st):
     """allocations (not views) a statement touches, anywhere inside it."""
-    out = set()
+    out = set(st.get("reads", []))
     for key in ("src", "dst", "out", "buf"):
         if key in st:
             out.add(st[key])
@@ -218,8 +221,8 @@ def emit(ast) -> str:
             elif k == "sync":
                 e(ind, '"snax.cluster_sync_op"() : () -> ()')
             elif k == "op":
-                tys = ", ".join("index" for _ in s["args"])
-                e(ind, f'"test.op"({", ".join(s["args"])}) {{vtag = {s["tag"]} : i64}} : ({tys}) -> ()')
+                tys = ", ".join(["index" for _ in s["args"]] + [buf_type(b) for b in s.get("reads", [])])
+                e(ind, f'"test.op"({", ".join(s["args"] + s.get("reads", []))}) {{vtag = {s["tag"]} : i64}} : ({tys}) -> ()')
             elif k == "dealloc":
                 e(ind, f'"memref.dealloc"({s["buf"]}) : ({buf_type(s["buf"])}) -> ()')
             elif k == "alloc":
